@@ -220,6 +220,61 @@ def run_binary(ck, rng, rounds, stats):
             break
 
 
+VALGRIND = ['valgrind', '-q', '--error-exitcode=97', '--leak-check=no', '--track-origins=no', '--num-callers=12']
+
+
+def truncated(rng):
+    """messages that end where a parser expects more: inside a header name, after the colon, inside a (folded) value, inside an
+    encoded word, inside a boundary line, inside a quoted-printable escape, without the final newline"""
+    hs = [b'From: a@b', b'Subject: Re: your invoice', b'X-Label: one\n two', b'Subject: =?UTF-8?Q?caf=C3=A9?= =?utf-8?B?QUJD?=',
+          b'Content-Type: multipart/mixed; boundary="B"', b'Content-Transfer-Encoding: quoted-printable', b'To: c@d']
+    rng.shuffle(hs)
+    text = b'\n'.join(hs[:rng.randrange(1, len(hs) + 1)])
+    k = rng.randrange(6)
+    if k == 0:
+        return text                                   # ends inside the last header value
+    if k == 1:
+        return text + b'\nX-Cut'                      # ends inside a header name
+    if k == 2:
+        return text + b'\nX-Cut:'                     # ends after the colon
+    if k == 3:
+        return text + b'\n\n--B\nContent-Type: text/plain\n\npart=4'      # ends inside a part / an escape
+    if k == 4:
+        return text + b'\n\n--B\nContent-Type: text/pl'                    # ends inside a part header
+    cut = rng.randrange(1, len(text) + 1)
+    return text[:cut]
+
+
+def run_memcheck(ck, rng, rounds, stats):
+    """the plain build under valgrind memcheck: reads of uninitialised or unaddressable memory that stay inside an
+    allocation (slack of the read buffer, recycled buffers) are invisible to AddressSanitizer"""
+    for round_ in range(rounds):
+        name, rule = CONFIGS[round_ % len(CONFIGS)]
+        if name == 'block':
+            continue
+        sb = mdrun.Sandbox()
+        src = sb.maildir('src'); dst = sb.maildir('dst')
+        msgs = []
+        # a large well-formed message first: its text stays in the recycled read buffer
+        msgs.append((sb.add(src, 'cur', b'From: z@z\nX-Spam-Flag: YES\nSubject: needle\n\n' + b'needle abcd plain text\n' * 40, name='0.first'), b''))
+        for i in range(14):
+            text = truncated(rng) if i % 2 == 0 else hostile(rng)[:3000]
+            msgs.append((sb.add(src, rng.choice(['new', 'cur']), text), text))
+        args = ['-d'] if name == 'dry' else []
+        conf = sb.write_conf(b'maildir "%s" {\n\t%s\n}\n' % (src.encode(), rule % {b'dst': dst.encode()}))
+        rc, out, err = sb.run(args, conf=conf, env={'LC_ALL': 'C', 'MALLOC_PERTURB_': '190'}, kind='plain', timeout=TIME_LIMIT * 12, wrapper=VALGRIND)
+        stats['memcheck'] += 1
+        if rc == 97 or rc < 0 or rc == -999 or b'== Invalid' in err or b'uninitialised' in err:
+            stats['viol'] += 1
+            m = re.search(rb'==\d+== (Invalid|Conditional jump|Use of uninit|Syscall param)[^\n]*(\n==\d+==[^\n]*){0,8}', err)
+            ck.violation('configuration %s: valgrind memcheck reports %s' % (name, (m.group(0)[:600].decode(errors='replace') if m else 'exit status %d' % rc)),
+                         {'kind': 'memcheck', 'config': open(conf, 'rb').read().decode(errors='replace'), 'messages_hex': [hexs(t) for n, t in msgs[1:]],
+                          'exit': rc, 'stderr': err[-2500:].decode(errors='replace')})
+        sb.cleanup()
+        if len(ck.violations) > 3:
+            break
+
+
 def bad_run(rc, err):
     return rc == -999 or rc < 0 or rc in (98, 99) or rc > 100 or SAN_RE.search(err or b'') is not None
 
@@ -271,11 +326,12 @@ def run_scan(ck, rng, n, stats):
 
 def run(ck):
     rng = ck.rng
-    stats = dict(api=0, runs=0, scan=0, scan_bad=0, viol=0)
+    stats = dict(api=0, runs=0, scan=0, scan_bad=0, viol=0, memcheck=0)
     q = ck.tier == 'quick'
     run_scan(ck, rng, 3000 if q else 60000, stats)
     run_api(ck, rng, 1200 if q else 30000, stats)
     run_binary(ck, rng, 16 if q else 400, stats)
+    run_memcheck(ck, rng, 4 if q else 48, stats)
     ck.coverage.update({
         'evaluations': stats['api'] + stats['runs'] + stats['scan'],
         'distinct_nontrivial': stats['api'] + stats['runs'],
@@ -284,9 +340,9 @@ def run(ck):
                 'delimiter bytes, range delete / duplicate, truncation, CRLF conversion, boundary lines with trailing junk, mbox/blank prefixes, duplicated X-Label + later header), '
                 'capped at 64 KiB. API stream: 1-6 of get_header / set_header / write / body / attachments per message on the ASan+UBSan driver. Binary: %d configurations '
                 '(header, body, attachment, add-header + label, date, attachment block + exec, -d in C and C.UTF-8) round-robin, every fifth round in stdin mode, 20 messages '
-                'per run, %d s limit. non-trivial = every API case and binary run (each executes the sanitized implementation)' % (len(CONFIGS), TIME_LIMIT),
+                'per run, %d s limit. Memcheck: the plain build under valgrind on maildirs of 15 messages (a large well-formed one first, then truncated messages - ending inside a header name, value, encoded word, part header, escape - and hostile ones), MALLOC_PERTURB_ set. non-trivial = every API case and binary run (each executes the sanitized implementation)' % (len(CONFIGS), TIME_LIMIT),
         'traces_validated_against_impl': stats['api'] + stats['runs'],
-        'api_cases': stats['api'], 'binary_runs': stats['runs'], 'scanner_model_cases': stats['scan'],
+        'api_cases': stats['api'], 'binary_runs': stats['runs'], 'scanner_model_cases': stats['scan'], 'memcheck_runs': stats['memcheck'],
         'sanitizers': 'clang -fsanitize=address,undefined -fno-sanitize-recover=all (leak detection off)',
     })
     ck.assumptions += ['AddressSanitizer/UBSan detect the memory errors they are documented to detect; errors inside libc are seen only at interposed entry points',
@@ -301,5 +357,25 @@ def replay(ck, rp):
         out, r = common.run_lines(drv, ['msg %s %s %s' % (rp['message_hex'], hexs(b'm'), ' '.join(rp['ops']))], env=env)
         print(out, r.returncode, r.stderr[-2000:].decode(errors='replace'))
         return 1 if r.returncode != 0 else 0
+    if rp.get('kind') in ('memcheck', 'binary') and rp.get('messages_hex'):
+        sb = mdrun.Sandbox()
+        src = sb.maildir('src'); dst = sb.maildir('dst')
+        if rp['kind'] == 'memcheck':
+            sb.add(src, 'cur', b'From: z@z\nX-Spam-Flag: YES\nSubject: needle\n\n' + b'needle abcd plain text\n' * 40, name='0.first')
+        for i, h in enumerate(rp['messages_hex']):
+            sb.add(src, 'new', unhexs(h), name='%d.m' % (i + 1))
+        body = rp['config'].split('{', 1)[1]
+        stdin_mode = rp['config'].lstrip().startswith('stdin')
+        conf = sb.write_conf((('stdin {' if stdin_mode else 'maildir "%s" {' % src) + re.sub(r'"/tmp/mdv-sb-[^/"]*/dst', '"' + dst, body)).encode())
+        if rp['kind'] == 'memcheck':
+            rc, out, err = sb.run([], conf=conf, env={'LC_ALL': 'C', 'MALLOC_PERTURB_': '190'}, kind='plain', timeout=TIME_LIMIT * 12, wrapper=VALGRIND)
+            bad = rc == 97 or rc < 0 or b'== Invalid' in err or b'uninitialised' in err
+        else:
+            rc, out, err = sb.run(['-'] if stdin_mode else [], conf=conf, env=dict(SAN_ENV), kind='asan', timeout=TIME_LIMIT * 3,
+                                  stdin=(unhexs(rp['messages_hex'][0]) if stdin_mode else None))
+            bad = bad_run(rc, err)
+        print('exit', rc); print(err[-2000:].decode(errors='replace'))
+        sb.cleanup()
+        return 1 if bad else 0
     print(rp.get('config')); print(rp.get('stderr'))
     return 1
